@@ -34,6 +34,7 @@ def run(ctx):
     ctx.step(value, ctx)
     ctx.step(source, ctx)
     ctx.step(addtype, ctx)
+    ctx.step(byref, ctx)
     ctx.step(pair, ctx)
     ctx.step(common.generic_witnesses, ctx, "C17.generic", ["C17"])
     ctx.step(common.raii_only, ctx, "C17.raii", ["SearchableObjectHolder.hpp"], floor=10)
@@ -85,6 +86,27 @@ def source(ctx):
             ctx.ob(rid, bad is None, f.loc(r), "%s returns an object taken from objectMap (or null)" % f.name,
                    "" if bad is None else "the returned pointer comes from member '%s': an answer remembered outside the map "
                    "survives the entry's removal / replacement" % bad["m"]["name"], fn=f.label, inst=f.qname)
+
+
+def byref(ctx):
+    """a user predicate is applied to the stored shared_ptr itself: the closures the holder hands to the std algorithms
+    take the map entry by reference (a by-value entry is a copy - its use_count and address differ from the stored one)"""
+    rid = "C17.byref"
+    ctx.rule(rid, "closures used to scan objectMap take the entry by reference", floor=2)
+    n = 0
+    for g in ctx.fb.functions():
+        if not g.is_lambda or not g.file.endswith("/SearchableObjectHolder.hpp") or not g.params:
+            continue
+        t = g.params[0].get("type", "")
+        if "std::pair<" not in t:
+            continue
+        n += 1
+        ok = t.rstrip().endswith("&")
+        ctx.ob(rid, ok, g.where, "the scanning closure receives the map entry by reference",
+               "" if ok else "its parameter is %s: the predicate is shown a temporary copy of the entry (one more owner, another "
+               "address), not the stored object" % t[-80:], fn=g.label, inst=g.qname)
+    if n == 0:
+        ctx.broken("no closure over map entries found in SearchableObjectHolder.hpp (anchor vanished)")
 
 
 def addtype(ctx):
